@@ -16,13 +16,19 @@ L = "src/linters/clone_abuse/linter.py::"
 AnalyzerT = Rec("RustCloneAnalyzer", cls=F + "RustCloneAnalyzer", tree_sitter_available=Bool)
 
 
+@opaque
+def clone_pattern(n: TSNode) -> Opt(Str):
+    """_classify_clone as a function of the call node (definition: c17_clone.classify; hidden to keep queries small)."""
+    return classify(n)
+
+
 def is_abusive_clone(n):
     """A `.clone()` method call that matches one of the three abuse patterns."""
-    return n.type == "call_expression" and method_name(n) == "clone" and classify(n) is not None
+    return n.type == "call_expression" and method_name(n) == "clone" and clone_pattern(n) is not None
 
 
 def clone_call_of(n, code):
-    return mk(CloneCallT, line=n.start_point[0] + 1, column=n.start_point[1], pattern=classify(n),
+    return mk(CloneCallT, line=n.start_point[0] + 1, column=n.start_point[1], pattern=clone_pattern(n),
               is_in_test=inside_test_from(n), context=line_ctx(code, n.start_point[0]))
 
 
@@ -42,6 +48,9 @@ def collect_clone_seq(s: SeqOf(TSNode), code: Str) -> SeqOf(CloneCallT):
 class FindCloneRecursive:
     def requires(node, code, calls):
         return node is not None
+
+    def reveals(node, code, calls):
+        return reveal(clone_pattern, node)
 
     def ensures_every_abusive_clone_once_at_its_position(node, code, calls, old):
         return calls == old.calls + collect_clone(node, code)
@@ -64,6 +73,7 @@ def clone_collected_iff_pattern(node, code):
     source is never used afterwards are recorded (the record carries the call's own position)."""
     if node is None or node.type != "call_expression" or method_name(node) != "clone":
         return True
+    reveal(clone_pattern, node)
     abusive = in_loop_from(node.parent) or is_chained(node) or is_unnecessary(node)
     return is_abusive_clone(node) == abusive and implies(
         abusive, clone_call_of(node, code).line == node.start_point[0] + 1
@@ -123,9 +133,6 @@ def skipped(c, config):
 @contract(L + "CloneAbuseRule._build_violations", props=["C17", "C12"],
           types=dict(calls=SeqOf(CloneCallT), config=CloneConfigT, file_path=Str), returns=SeqOf(ViolationT))
 class BuildViolations:
-    def requires(calls, config, file_path):
-        return all(c.pattern in ("clone-in-loop", "clone-chain", "unnecessary-clone") for c in calls)
-
     def value(calls, config, file_path):
         return [clone_violation(call, file_path) for call in calls if not skipped(call, config)]
 
